@@ -152,4 +152,23 @@ Theorem C05_fragment_unit_sections :
     r_lines (parse_file_model (render_unit ds ss) []) = decl_lines 0 ds ++ rest.
 Proof. exact fragment_unit_sections. Qed.
 
+(* the declaration half of C05 with TYPE sections: `Name = record fields end;` and `Name = class fields {private|public fields} end;` -
+   the `type` keyword on a line of level 0, `Name = record|class` one level deeper, every field on its own line two levels deeper, the
+   visibility keywords and `end;` at the level of the type name; the parser re-types private/public to keywords *)
+From PasfmtVerif Require Import Model.Fragment Proofs.FragmentProofs Proofs.FragmentUnitProofs.
+Theorem C05_fragment_unit_with_type_sections_one_member_per_line :
+  forall (ds : list udecl) (ss : stmts),
+  wf ss = true ->
+  let r := parse_file_model (render_unit2 ds ss) [] in
+  r_err r = None /\
+  r_lines r = expected_unit2 ds ss /\ r_toks r = map retype (render_unit2 ds ss).
+Proof. exact fragment_unit2_parse_file. Qed.
+
+Theorem C05_fragment_unit_with_type_sections_starts_with_its_sections :
+  forall (ds : list udecl) (ss : stmts),
+  wf ss = true ->
+  exists rest : list lline,
+    r_lines (parse_file_model (render_unit2 ds ss) []) = udecl_lines 0 ds ++ rest.
+Proof. exact fragment_unit2_sections. Qed.
+
 
